@@ -249,10 +249,27 @@ PROPS = {
         "technique": "Lean 4 invariant proof over bank primitives + kernel-checked regenerated fact (typed sweep of bank-keeper calls) + all crisis invariants evaluated after every block of generated histories",
         "explanation": "Supply invariant proved for all histories of primitives; the primitive set tied to the source by a typed sweep; histories with staking, precompile and puppet-contract transactions, DAO funding, governance and the per-block coinomics mint evaluated against every registered invariant after each block.",
     },
+    "C19": {
+        "id": "C19",
+        "lean_modules": ["HaqqModel.Props.C19"],
+        "level": "proof",
+        "no_model": True,
+        "trusted_base": COMMON_TRUST + [
+            "modelled, not verified: a module's genesis as a family of fields copied by export and written by import; what happens inside a field (lists of accounts, token pairs, denominations, balances) and the SDK modules' own genesis code are covered by the export/import/export differential run only",
+        ],
+        "assumptions": [
+            "the compared document sections are those of Haqq's modules and of auth and bank (accounts incl. vesting accounts, balances, supply); staking, distribution, gov, slashing, ibc sections are the SDK's and are not compared",
+            "the fresh application is initialised with the same consensus parameters and the exported height",
+        ],
+        "level_text": "Machine-checked (Lean 4): for a module whose every genesis field is exported and imported, init(export s) = s and a second export is identical, for every state; a field exported but not imported breaks it (counterexample = the repaired coinomics defect); kernel-checked over facts regenerated from the source: all 16 genesis fields of coinomics, evm, feemarket, erc20, liquidvesting, epochs and ucdao are both filled by ExportGenesis and read by InitGenesis, the coinomics timestamp is imported, and the epochs import keeps a running epoch's start height. Tied to the code by a differential run: generated histories, export, InitChain of a fresh application from the export, second export compared path by path, and keeper reads compared on both applications.",
+        "level_note": "Trusted: Lean kernel; go/ast extractor for the field facts; the export/import harness. The field-level model is deliberately coarse; per-field content is compared at run time.",
+        "technique": "Lean 4 round-trip theorem over regenerated per-field facts + export/import/export differential run with keeper-read comparison",
+        "explanation": "Round trip proved for the field model and discharged over regenerated facts; rich states (contracts with code and storage, a liquid denomination with its ERC20 pair, a vesting account mid-schedule, DAO holders of two denominations, minting in progress, delegations, changed EVM parameters) exported, re-imported and compared.",
+    },
 }
 
 # properties not (yet) claimed, each with a reason; entries disappear as checks are built
 NOT_APPLICABLE = {pid: "check not built yet in this session (planned: see DESIGN.md §5)" for pid in
-                  ["C03", "C04", "C10", "C16", "C19"]}
+                  ["C03", "C04", "C10", "C16"]}
 
 HOOK_COMMITS = []
